@@ -417,40 +417,62 @@ def make_kw(desc):
         kind, at, en = o["fault"]
         cnt = {"k": 0}
         excs = {"Marker": Marker, "TypeError": TypeError, "ValueError": ValueError, "IndexError": IndexError}
-        tgt = {"f": "fun", "g": "jac"}[kind]
+        tgt = {"f": "fun", "g": "jac", "cb": "callback", "upd": "update_fun_def", "sc": "gradient_scaler", "ft": "ftarget", "gt": "gtol"}[kind]
+        if kind == "cb" and kw.get(tgt) is None:
+            kw[tgt] = lambda xk, s: False
+        if kind == "upd" and kw.get(tgt) is None:
+            kw[tgt] = lambda x, f0, f0o, g, X, G: (f0, f0o, g, G)
+        if kind == "sc" and kw.get(tgt) is None:
+            kw[tgt] = lambda x, g, lb, ub: 2.0
+        if kind == "ft" and not callable(kw.get(tgt)):
+            fv = kw.get(tgt)
+            fv = -1e300 if fv is None else fv
+            kw[tgt] = lambda: fv
+        if kind == "gt" and not callable(kw.get(tgt)):
+            gv0 = kw.get(tgt, 1e-5)
+            kw[tgt] = lambda: gv0
         base = kw[tgt]
 
-        def faulty(x):
+        def faulty(*a):
             cnt["k"] += 1
             if cnt["k"] == at:
                 raise excs[en](f"fault-{kind}-{at}")
-            return base(x)
+            return base(*a)
         kw[tgt] = faulty
     return P, kw
 
 
-def gen_descs(tier, rng):
-    N = 120 if tier == "quick" else 1500
+def gen_descs(tier, rng, focus=None):
+    """Run descriptions. focus biases the options towards what a property rests on:
+    'fault' (a raising callable in every run), 'restart', 'scaler', 'upd', 'cb', 'budget' (tiny maxiter/maxfun/maxls)."""
+    N = 300 if tier == "quick" else 3000
     for i in range(N):
         fam = str(rng.choice(gen.ALL))
         spec = dict(family=fam, pseed=int(rng.integers(0, 2**31 - 1)), nmax=8)
         cfg = gen.random_config(rng)
-        if rng.random() < 0.3:
+        if rng.random() < 0.3 or focus == "budget":
             cfg.update(maxls=int(rng.integers(1, 4)))
+        if focus == "budget":
+            cfg.update(maxiter=int(rng.integers(0, 6)), maxfun=int(rng.integers(1, 12)))
         if rng.random() < 0.2:
             cfg.update(max_steplength=float(rng.choice([1e8, 2.0])), ftol_linesearch=1e-4, gtol_linesearch=0.5)
-        opts = dict(ft=str(rng.choice(["none", "none", "mid", "x0", "callable"])), gt=str(rng.choice(["float", "float", "callable"])),
+        opts = dict(ft=str(rng.choice(["none", "none", "none", "mid", "x0", "callable"])), gt=str(rng.choice(["float", "float", "callable"])),
                     cb=str(rng.choice(["none", "record", "record", "stop2"])))
+        if focus == "cb":
+            opts["cb"] = str(rng.choice(["record", "record", "stop2"]))
         r = rng.random()
-        if r < 0.15:
+        if focus == "scaler" or (focus is None and r < 0.15):
             opts["scaler"] = float(10 ** rng.uniform(-3, 3))
-        elif r < 0.3:
-            opts["upd"] = "identity"
-        elif r < 0.4:
-            opts["upd"] = "rescale"
-        elif r < 0.5:
-            opts["fault"] = [str(rng.choice(["f", "g"])), int(rng.integers(1, 12)), str(rng.choice(["Marker", "TypeError", "ValueError", "IndexError"]))]
-        restart = int(rng.integers(1, 5)) if rng.random() < 0.25 else 0
+        elif focus == "upd" or (focus is None and r < 0.4):
+            opts["upd"] = str(rng.choice(["identity", "identity", "rescale"]))
+        elif focus == "fault" or (focus is None and r < 0.5):
+            kind = str(rng.choice(["f", "g", "f", "g", "cb", "upd", "sc", "ft", "gt"]))
+            opts["fault"] = [kind, int(rng.integers(1, 12)) if kind in ("f", "g") else int(rng.integers(1, 4)) if kind in ("cb", "upd") else 1,
+                             str(rng.choice(["Marker", "TypeError", "ValueError", "IndexError"]))]
+            if focus == "fault":
+                opts["ft"] = str(rng.choice(["none", "none", "callable"]))
+                cfg.update(maxiter=int(rng.integers(3, 30)), maxfun=int(rng.integers(10, 80)))
+        restart = int(rng.integers(1, 5)) if (rng.random() < 0.25 or focus == "restart") else 0
         yield dict(spec=spec, cfg=cfg, opts=opts, restart=restart, red=int(rng.integers(0, 3)))
 
 
@@ -476,9 +498,10 @@ def build_case(desc, name):
     return txt, info
 
 
-def run(tier):
-    rng = np.random.default_rng([seed(), 777])
-    descs = list(gen_descs(tier, rng))
+def run(tier, focus=None):
+    import zlib
+    rng = np.random.default_rng([seed(), 777, zlib.crc32((focus or "").encode())])
+    descs = list(gen_descs(tier, rng, focus))
     texts, infos, kept = [], [], []
     skipped = 0
     for i, d in enumerate(descs):
@@ -490,7 +513,7 @@ def run(tier):
         texts.append(t)
         infos.append(info)
         kept.append(d)
-    codes, errors = evaluate(texts, "drv")
+    codes, errors = evaluate(texts, "drv_" + (focus or "all"))
     failures = []
     hist = {}
     for d, info, code in zip(kept, infos, codes):
@@ -499,8 +522,9 @@ def run(tier):
         if code != 0 and len(failures) < 3:
             failures.append(Failure("correspondence", f"driver model and minimize_lbfgsb disagree: {describe(code)} on run {d}",
                                     replay=dict(desc=d, code=code, errors=errors[:1]), signature="driver corr"))
-    stats = dict(cases=len(texts), agree=sum(1 for c in codes if c == 0), skipped=skipped, outcome_distribution=hist,
+    stats = dict(focus=focus or "mixed", cases=len(texts), agree=sum(1 for c in codes if c == 0), skipped=skipped, outcome_distribution=hist,
                  options=dict(restart=sum(1 for d in kept if d.get("restart")), scaler=sum(1 for d in kept if d["opts"].get("scaler") is not None),
                               update_fun=sum(1 for d in kept if d["opts"].get("upd")), fault=sum(1 for d in kept if d["opts"].get("fault")),
-                              callback=sum(1 for d in kept if d["opts"].get("cb") != "none")))
+                              callback=sum(1 for d in kept if d["opts"].get("cb") != "none")),
+                 raised=sum(1 for i_ in infos if i_["outcome"] != "ok"))
     return failures, stats
